@@ -579,7 +579,7 @@ func runC15(c *Ctx) {
 	c.AddEval(pops)
 	c.Count("population_round_trips", pops)
 	// fast-solver models: the C12 network set with hard-float weights
-	sh := c12Shape{1, 1, 2, 1}
+	sh := c12Shape{NB: 1, NI: 1, NH: 2, NO: 1}
 	total := uint64(1) << uint(len(sh.edges()))
 	var models int64
 	parFor(int(total), func(mi int) {
